@@ -85,8 +85,29 @@ FILES = {
     "s_l.png": _mk("s_l.png", 1, (6, 6), "L", "PNG"),
     "s_big.png": _mk("s_big.png", 1, (60, 40), "RGB", "PNG"),
 }
+
+
+def _truncate(name, src_name):
+    data = open(FILES[src_name], "rb").read()
+    path = os.path.join(TMP, name)
+    open(path, "wb").write(data[: len(data) * 2 // 3])
+    return path
+
+
+FILES["s_p.png"] = os.path.join(TMP, "s_p.png")
+PI.open(FILES["s_l.png"]).convert("P").save(FILES["s_p.png"])
+# files Image.open() identifies but Pillow cannot decode (pixel data cut off): the first call that loads them —
+# the mode conversion — fails
+_noise = PI.frombytes("L", (48, 48), random.Random(7).randbytes(48 * 48))
+_noise.save(os.path.join(TMP, "n_l.png"))
+_noise.convert("P").save(os.path.join(TMP, "n_p.png"))
+FILES["n_l.png"], FILES["n_p.png"] = os.path.join(TMP, "n_l.png"), os.path.join(TMP, "n_p.png")
+FILES["t_l.png"] = _truncate("t_l.png", "n_l.png")
+FILES["t_p.png"] = _truncate("t_p.png", "n_p.png")
+del FILES["n_l.png"], FILES["n_p.png"]
+TRUNC = ["t_l.png", "t_p.png"]
 ANIM = ["a.gif", "b.gif", "c.gif", "a.png", "a.webp", "r.webp", "r.png"]
-STILL = ["s_rgba.png", "s_rgb.png", "s_l.png", "s_big.png"]
+STILL = ["s_rgba.png", "s_rgb.png", "s_l.png", "s_big.png", "s_p.png"]
 for _n in ("/repo/tests/images/lion.gif", "/repo/tests/images/anim.webp"):
     if os.path.exists(_n):
         FILES[os.path.basename(_n)] = _n
@@ -198,11 +219,11 @@ def b(x):
 
 
 def alpha_of(spec_alpha):
-    return {"none": None, "float": 0.5, "str": "#ffffff"}[spec_alpha]
+    return {"none": None, "float": 0.5, "str": "#ffffff", "bg": "#"}[spec_alpha]
 
 
 def spec_of(style, alpha, method):
-    s = {"none": "#", "float": "#.5", "str": "#ffffff"}[alpha]
+    s = {"none": "#", "float": "#.5", "str": "#ffffff", "bg": "##"}[alpha]
     if style != "block" and method:
         s += "+" + method
     return s
@@ -214,7 +235,31 @@ def make_image(style, fname, src, width=3, height=None):
     if src == "pil":
         pimg = PI.open(FILES[fname])
         return cls(pimg, width=width, height=height), pimg
+    if src in ("mem", "memnofmt"):   # a PIL image that has no file behind it
+        pimg = PI.open(io.BytesIO(open(FILES[fname], "rb").read()))
+        if src == "memnofmt":
+            pimg.format = None      # … and no known format: iterm2 native animation cannot re-encode it
+        return cls(pimg, width=width, height=height), pimg
+    if src == "new":                # a PIL image without even a `filename` attribute
+        with PI.open(FILES[fname]) as im:
+            pimg = im.copy()
+        return cls(pimg, width=width, height=height), pimg
     return cls.from_file(FILES[fname], width=width, height=height), None
+
+
+def model_src(src):
+    return "file" if src == "file" else "pil"
+
+
+def is_closed(img):
+    """has close() been called on this PIL image? (a truncated file fails to load for another reason)"""
+    try:
+        img.load()
+    except ValueError as e:
+        return "closed" in str(e)
+    except Exception:  # noqa: BLE001
+        return False
+    return False
 
 
 def probe_rp(image, style, fname, k, alpha, frame, method, seq=False):
@@ -251,15 +296,16 @@ def variant_of(image, style, fname, src, alpha, method, frame, rp):
     if style == "kitty":
         return "kitty"
     animated = NFRAMES[fname] > 1
+    readable = src in ("file", "pil")
     if method == "A" and animated and not frame:
-        return "inative"
+        return "inative" if readable else "isave"
     eff = "L" if method == "L" else "W"
     if eff == "L":
         return f"ilines {image.rendered_height}"
     a = alpha_of(alpha)
     ow, oh = image._original_size
     rw, rh = image._get_render_size()
-    gate = (image.read_from_file and not animated and ow * oh <= rw * rh
+    gate = (image.read_from_file and readable and not animated and ow * oh <= rw * rh
             and (rp["mode"] in OPAQUE or (isinstance(a, float) and rp["mode"] not in {"P", "PA"})))
     return "iread" if gate else "iwhole"
 
@@ -273,12 +319,13 @@ def exc_name(e):
 class Obs:
     """what the oracle needs about one run of the real code"""
     __slots__ = ("fd_delta", "fd_delta_after_drop", "live", "source_ok", "size_ok", "temp_ok", "frames_ok", "note",
-                 "unclosed")
+                 "unclosed", "unclosed_fail")
 
     def __init__(self):
         self.fd_delta = self.fd_delta_after_drop = 0
         self.live = []
         self.unclosed = []
+        self.unclosed_fail = []
         self.source_ok = self.size_ok = self.temp_ok = self.frames_ok = True
         self.note = ""
 
@@ -335,7 +382,7 @@ class C11(Property):
         "injected failures are `Exception`s raised by a Pillow call before it runs; failures inside clean-up "
         "code and BaseExceptions are outside the property",
     ]
-    quick_cases = 800
+    quick_cases = 760
     thorough_cases = 3000
     rule = ("cases are generated from one PRNG state derived from VERIF_SEED; kinds: iter-* (operation histories "
             "on a real ImageIterator), res-* (one operation under a fault plan, event log of the Pillow proxy), "
@@ -390,6 +437,8 @@ class C11(Property):
                 c = self.gen_res(rng)
                 if c is not None:
                     yield c
+            elif r < 0.95:
+                yield self.gen_ctor(rng)
             elif r < 0.97:
                 m = rng.choice(["lines", "whole", "anim"])
                 an, fr = rng.random() < 0.6, rng.random() < 0.5
@@ -405,6 +454,71 @@ class C11(Property):
                 yield Case(f"cached {NFRAMES[nf_name]} {rep} {b(is_bool)} {b(bv)} {n}",
                            dict(fname=nf_name, rep=rep, cached=(bv if is_bool else n)), "cached", True)
 
+    def gen_ctor(self, rng):
+        """argument validation of `ImageIterator(...)` / of the image constructor: nothing may be opened or leaked"""
+        if rng.random() < 0.25:
+            is_pil, non_null = rng.random() < 0.6, rng.random() < 0.6
+            return Case(f"bctor {b(is_pil)} {b(non_null)}", dict(is_pil=is_pil, non_null=non_null,
+                                                                 style=rng.choice(list(CLS))), "bctor", True)
+        is_image = rng.random() < 0.85
+        animated = rng.random() < 0.8
+        rep_ = rng.choice(["ok", "ok", "ok", "zero", "notint"])
+        spec_is_str = rng.random() < 0.85
+        spec_valid = rng.random() < 0.8
+        cached = rng.choice(["ok", "ok", "ok", "notint", "nonpos"])
+        return Case(f"ictor {b(is_image)} {b(animated)} {rep_} {b(spec_is_str)} {b(spec_valid)} {cached}",
+                    dict(is_image=is_image, animated=animated, rep=rep_, spec_is_str=spec_is_str,
+                         spec_valid=spec_valid, cached=cached, style=rng.choice(list(CLS)),
+                         src=rng.choice(["file", "pil"])), "ictor", True)
+
+    def impl_ctor(self, case):
+        d = case.data
+        obs = self.obs[id(case)] = Obs()
+        R.quiesce()
+        base = R.fd_count()
+        pimg = None
+        try:
+            if case.line.startswith("bctor"):
+                arg = (PI.new("RGB", (3, 3) if d["non_null"] else (0, 3))) if d["is_pil"] else "not an image"
+                try:
+                    CLS[d["style"]](arg).close()
+                    return "ok"
+                except (TypeError, ValueError) as e:
+                    return "err " + type(e).__name__
+            fname = "a.gif" if d["animated"] else "s_rgb.png"
+            if d["is_image"]:
+                image, pimg = make_image(d["style"], fname, d["src"])
+                if pimg is not None:
+                    base = R.fd_count()
+            else:
+                image = PI.open(FILES[fname])
+                base = R.fd_count()
+            rep_ = {"ok": 2, "zero": 0, "notint": 2.0}[d["rep"]]
+            spec = ("1.1" if d["spec_valid"] else "1.1.1x") if d["spec_is_str"] else 5
+            cached = {"ok": 3, "notint": "yes", "nonpos": 0}[d["cached"]]
+            try:
+                it = ImageIterator(image, rep_, spec, cached)
+                repr(it)
+                if iter(it) is not it:
+                    obs.frames_ok = False
+                    obs.note = "iter(iterator) is not the iterator"
+                it.close()
+                res = "ok"
+            except (TypeError, ValueError) as e:
+                res = "err " + type(e).__name__
+            it = None
+            image.close()
+            image = None
+            obs.fd_delta = fd_settle(base)
+            if pimg is not None:
+                if is_closed(pimg):
+                    obs.source_ok = False
+                    obs.note = "caller's PIL image closed by a failing ImageIterator()"
+                pimg.close()
+            return res
+        finally:
+            rec.on = False
+
     def fixed_cases(self):
         # the branches named in the property's anchors, once each, deterministically
         for style in ("block", "kitty", "iterm2"):
@@ -412,6 +526,41 @@ class C11(Property):
                 ops = ["n"] * 7
                 yield self.iter_case(style, "a.gif", "file", "float", m, 2, True, False, 5, 0, 0, ops, "iter-fixed")
         yield self.iter_case("iterm2", "b.gif", "pil", "none", "A", 1, False, False, 5, 0, 0, ["n"] * 3, "iter-fixed")
+        # every way `from_url` can end, once; close() when the temp file is already gone
+        for http, init_ok, closes, rm in (("ok", True, 0, False), ("ok", True, 2, True), ("ok", False, 0, False),
+                                          ("text", True, 0, False), ("notfound", True, 0, False),
+                                          ("connerr", True, 0, False), ("badtype", True, 0, False),
+                                          ("badurl", True, 0, False)):
+            c = self.res_case(dict(op="url", style="block", http=http, fname="a.gif", init_ok=init_ok, closes=closes,
+                                   rm_before_close=rm, fault=None), None, None)
+            if c is not None:
+                c.kind = "res-url-fixed"
+                yield c
+        # every argument check of ImageIterator() / of the image constructor, once
+        for args in ((False, True, "ok", True, True, "ok"), (True, False, "ok", True, True, "ok"),
+                     (True, True, "notint", True, True, "ok"), (True, True, "zero", True, True, "ok"),
+                     (True, True, "ok", False, True, "ok"), (True, True, "ok", True, False, "ok"),
+                     (True, True, "ok", True, True, "notint"), (True, True, "ok", True, True, "nonpos"),
+                     (True, True, "ok", True, True, "ok")):
+            ii, an, rp_, ss, sv, ca = args
+            yield Case(f"ictor {b(ii)} {b(an)} {rp_} {b(ss)} {b(sv)} {ca}",
+                       dict(is_image=ii, animated=an, rep=rp_, spec_is_str=ss, spec_valid=sv, cached=ca, style="kitty",
+                            src="file"), "ictor-fixed", True)
+        for is_pil, non_null in ((False, True), (True, False), (True, True)):
+            yield Case(f"bctor {b(is_pil)} {b(non_null)}", dict(is_pil=is_pil, non_null=non_null, style="block"),
+                       "bctor-fixed", True)
+        # a failing mode conversion / resize on every entry point that opens its own image, and on PIL sources
+        for style, method in (("block", ""), ("kitty", "L"), ("iterm2", "W"), ("iterm2", "L")):
+            for src in ("file", "pil"):
+                for opk in ("fmt", "drawstill"):
+                    for fname, alpha, target in (("s_p.png", "none", "convert"), ("a.gif", "float", "convert"),
+                                                 ("s_rgba.png", "float", "resize"), ("t_l.png", "str", "convert")):
+                        dd = dict(op=opk, style=style, fname=fname, src=src, alpha=alpha, method=method, width=3,
+                                  dyn=False, closed=False, seek0=0, size_ok=True, fault=None, target=target)
+                        c = self.res_case(dd, random.Random(1), "rand")
+                        if c is not None and (c.data["fault"] is not None or c.data.get("natural") is not None):
+                            c.kind = "res-" + opk + "-cfail"
+                            yield c
         for style, method in (("kitty", "L"), ("kitty", "W"), ("iterm2", "W"), ("iterm2", "L"), ("block", "")):
             for alpha, fname in (("none", "r.png"), ("float", "r.png"), ("none", "b.gif"), ("float", "r.webp")):
                 c = self.res_case(dict(op="fmt", style=style, fname=fname, src="file", alpha=alpha, method=method,
@@ -438,8 +587,10 @@ class C11(Property):
             x = rng.random()
             if x < 0.68:
                 ops.append("n")
-            elif x < 0.80:
+            elif x < 0.79:
                 ops.append(f"s {rng.choice([0, nf - 1, rng.randrange(nf), rng.randrange(nf), -1, nf])}")
+            elif x < 0.80:
+                ops.append("sx")
             elif x < 0.90:
                 ops.append(f"z {rng.randrange(len(SIZES))}")
             elif x < 0.96:
@@ -466,17 +617,31 @@ class C11(Property):
         if opkind == "file":
             d.update(style=rng.choice(list(CLS)), fname=rng.choice(ANIM + STILL), init_ok=rng.random() < 0.8)
         elif opkind == "url":
-            d.update(style=rng.choice(list(CLS)), http=rng.choice(["ok", "ok", "ok", "notfound", "connerr", "text"]),
-                     fname=rng.choice(ANIM + STILL), init_ok=rng.random() < 0.8, closes=rng.choice([0, 1, 2]))
+            d.update(style=rng.choice(list(CLS)),
+                     http=rng.choice(["ok", "ok", "ok", "ok", "notfound", "connerr", "text", "badtype", "badurl"]),
+                     fname=rng.choice(ANIM + STILL), init_ok=rng.random() < 0.8, closes=rng.choice([0, 1, 2]),
+                     rm_before_close=rng.random() < 0.3)
         else:
             style = rng.choice(["block", "kitty", "iterm2", "iterm2"])
             animated = opkind in ("iter", "draw", "nf") or \
                 (opkind in ("fmt", "drawstill") and rng.random() < 0.55)
             fname = rng.choice([f for f in ANIM if f != "c.gif"]) if animated else rng.choice(STILL)
             method = "" if style == "block" else rng.choice(["L", "W"] + (["A"] if style == "iterm2" else []))
-            d.update(style=style, fname=fname, src=rng.choice(["file", "file", "pil"]),
-                     alpha=rng.choice(["none", "float", "str"]), method=method,
-                     width=rng.choice([3, 3, 3, 2, 5]), dyn=rng.random() < 0.25)
+            srcs = ["file", "file", "pil"]
+            if opkind in ("fmt", "drawstill"):
+                if not animated:
+                    srcs.append("new")
+                    if rng.random() < 0.2:
+                        fname = rng.choice(TRUNC)
+                elif style == "iterm2" and method == "A":
+                    srcs += ["mem", "memnofmt"]
+            d.update(style=style, fname=fname, src=rng.choice(srcs),
+                     alpha=rng.choice(["none", "float", "str", "bg"]), method=method,
+                     width=rng.choice([3, 3, 3, 2, 5]), dyn=rng.random() < 0.25,
+                     bg_unknown=rng.random() < 0.5, jpeg=style == "iterm2" and rng.random() < 0.25,
+                     tiny_max=style == "iterm2" and rng.random() < 0.3)
+            if opkind in ("fmt", "drawstill") and rng.random() < 0.45:
+                d["target"] = rng.choice(["convert", "convert", "resize"])
             if opkind in ("fmt", "drawstill"):
                 d.update(closed=rng.random() < 0.06, seek0=rng.randrange(NFRAMES[fname]),
                          size_ok=not (opkind == "drawstill" and rng.random() < 0.15))
@@ -499,16 +664,29 @@ class C11(Property):
 
     def res_case(self, d, rng=None, fault=None):
         """build the request line (needs one fault-free dry run to know the path and the number of calls)"""
+        d.pop("natural", None)
         try:
             tokens, ncalls = self.res_tokens(d)
         except Exception:
             return None
-        if rng is not None:
-            d["fault"] = rng.randrange(ncalls) if ncalls and rng.random() < 0.7 else None
+        if d.get("natural") is not None:
+            d["fault"] = None          # the failure is Pillow's own; the request line names the call that fails
+        elif rng is not None:
+            idx = d.get("_idx", {})
+            if d.get("target") and d["target"] not in idx and idx:
+                d["target"] = sorted(idx)[0]      # aim at the step this path does have
+            tgt = idx.get(d.get("target"))
+            if tgt is not None:
+                d["fault"] = tgt       # aimed at the mode conversion / the resize
+            else:
+                d["fault"] = rng.randrange(ncalls) if ncalls and rng.random() < 0.7 else None
         elif isinstance(fault, int):
             d["fault"] = fault if fault < ncalls else None
-        f = "none" if d["fault"] is None else f"some {d['fault']}"
-        kind = f"res-{d['op']}" + ("-fault" if d["fault"] is not None else "")
+        lf = d["natural"] if d.get("natural") is not None else d["fault"]
+        f = "none" if lf is None else f"some {lf}"
+        kind = f"res-{d['op']}" + ("-natural" if d.get("natural") is not None else "-fault" if d["fault"] is not None else "")
+        if d.get("target") and d.get("_idx", {}).get(d["target"]) == d["fault"] and d["fault"] is not None:
+            kind += "-" + d["target"]
         if d["op"] == "iter":
             kind += "-" + d["ending"]
         return Case(f"res {tokens} {f}", d, kind, ncalls > 0)
@@ -521,6 +699,8 @@ class C11(Property):
             http = d["http"]
             ident = http != "text"
             h = "ok" if http == "text" else http
+            if h in ("badtype", "badurl"):
+                return f"url {h} 1 0 1 0", 0
             anim_prop = GIF_PROPS[d["fname"]] and ident
             n = (1 + anim_prop) if h == "ok" and ident else 0
             return f"url {h} {b(ident)} {b(anim_prop)} {b(d['init_ok'])} {d['closes']}", n
@@ -534,12 +714,24 @@ class C11(Property):
                 image.seek(d["seek0"]) if NFRAMES[fname] > 1 else None
                 rp = probe_rp(image, style, fname, d["seek0"], alpha, False, method)
                 v = variant_of(image, style, fname, src, alpha, method, False, rp)
-                if v == "inative" and src == "pil":
-                    v = "inative"  # the harness's PIL sources always come from readable files
-                toks = f"fmt {src} {b(d['closed'])} {b(d['size_ok'])} {b(d.get('dyn'))} {d['seek0']} {v} {rp_tokens(rp)}"
+                toks = (f"fmt {model_src(src)} {b(d['closed'])} {b(d['size_ok'])} {b(d.get('dyn'))} {d['seek0']} {v} "
+                        f"{rp_tokens(rp)}")
+                # which Pillow call (in order) is the mode conversion / the resize of this path
+                first = (src == "file") + (NFRAMES[fname] > 1)
+                goes_through = v in ("block", "kitty", "iwhole") or v.startswith("ilines")
+                d["_idx"] = {}
+                if goes_through and not d["closed"] and d["size_ok"]:
+                    if rp["needConvert"]:
+                        d["_idx"]["convert"] = first
+                    if rp["needResize"]:
+                        d["_idx"]["resize"] = first + rp["needConvert"]
+                    if fname in TRUNC:   # the first call that decodes the file fails by itself
+                        d["natural"] = first
+                if v == "isave" and src == "memnofmt" and not d["closed"] and d["size_ok"]:
+                    d["natural"] = 0     # img.save(…, None, save_all=True) raises ValueError
                 return toks, 30
             if op == "nf":
-                return f"nf {src} {b(d['closed'])} {b(GIF_PROPS[fname])}", 2
+                return f"nf {model_src(src)} {b(d['closed'])} {b(GIF_PROPS[fname])}", 2
             frames = []
             nfr = d["nframes"] if op == "iter" else NFRAMES[fname]
             v = None
@@ -572,6 +764,8 @@ class C11(Property):
                 return self.impl_res(case)
             if op == "meth":
                 return self.impl_meth(case)
+            if op in ("ictor", "bctor"):
+                return self.impl_ctor(case)
             if op == "cached":
                 d = case.data
                 image, _ = make_image("block", d["fname"], "file")
@@ -621,6 +815,9 @@ class C11(Property):
         if any(len(v) > 1 for v in hashes.values()):
             obs.note = "hash collision between rendered sizes"
         it = ImageIterator(image, d["rep"], spec, d["cached"])
+        if iter(it) is not it or type(it).__name__ not in repr(it):
+            obs.frames_ok = False
+            obs.note = "iter(iterator) is not the iterator itself"
         out = []
         # the oracle's own expectation, from the statement of the property
         exp_next, started, closed, passes = 0, False, False, d["rep"]
@@ -648,6 +845,9 @@ class C11(Property):
                             obs.note = (f"next() gave `{ans}` tell={image.tell()}, expected "
                                         + ("StopIteration" if expect_stop else f"frame {exp_next} at size {sid}"))
                         exp_next += 1
+                elif t[0] == "sx":
+                    it.seek("1")
+                    ans = "ok"
                 elif t[0] == "s":
                     it.seek(int(t[1]))
                     ans = "ok"
@@ -677,6 +877,8 @@ class C11(Property):
                 ans = "err TermImageError"
             except ValueError:
                 ans = "err ValueError"
+            except TypeError:
+                ans = "err TypeError"
             except Exception as e:  # noqa: BLE001
                 ans = "err " + type(e).__name__
             out.append(f"{ans} {image.tell()} {'none' if it.loop_no is None else it.loop_no}")
@@ -726,13 +928,17 @@ class C11(Property):
                 if op == "file":
                     image = CLS[d["style"]].from_file(FILES[d["fname"]], **kw)
                 else:
-                    image = CLS[d["style"]].from_url(f"http://127.0.0.1:{port}/{name}", **kw)
+                    url = {"badtype": 123, "badurl": "no scheme, no host"}.get(
+                        d["http"], f"http://127.0.0.1:{port}/{name}")
+                    image = CLS[d["style"]].from_url(url, **kw)
                     url_path = image._source
                     for _ in range(d["closes"]):
+                        if d.get("rm_before_close") and os.path.exists(url_path):
+                            os.remove(url_path)   # somebody else cleaned up first: close() must cope
                         image.close()
             except Exception as e:  # noqa: BLE001
                 exc = exc_name(e)
-                if exc in ("ValueError",):
+                if exc in ("ValueError",) and d.get("http") != "badurl":
                     exc = "InvalidSizeError"
                 if "Connection" in exc or "ConnectTimeout" in exc or "NewConnection" in exc:
                     exc = "ConnectionError"
@@ -775,6 +981,13 @@ class C11(Property):
         if d.get("closed"):
             image.close()
         stdout = sys.stdout
+        held = None
+        if d["alpha"] == "bg" and d.get("bg_unknown"):
+            env.set_env(bg=None)          # "#": the terminal's background colour is unknown -> black
+        if d.get("jpeg"):
+            image.jpeg_quality = 60       # iterm2 re-encodes opaque frames as JPEG
+        if d.get("tiny_max"):
+            ITerm2Image.native_anim_max_bytes = 1   # native animations only warn about their size
         try:
             rec.on = True
             try:
@@ -816,13 +1029,29 @@ class C11(Property):
                         keep_it = True
             except Exception as e:  # noqa: BLE001
                 exc = exc_name(e)
-                e = None
+                held = e                  # a caller may keep the exception (and with it the frames' locals)
             finally:
                 sys.stdout = stdout
                 rec.on = False
-                env.set_env(term_size=(80, 30))
+                env.set_env(term_size=(80, 30), bg=(0, 0, 0))
+                if d.get("tiny_max"):
+                    del ITerm2Image.native_anim_max_bytes
         finally:
             rec.on = False
+        if held is not None:
+            # the call has raised and the exception is still referenced: the garbage collector cannot help.
+            # Where the library promises to clean up (a failing mode conversion / resize / re-encoding is turned
+            # into a RenderError after closing what it opened), every image it opened must be closed NOW.
+            if exc == "RenderError":
+                opens = [e.split()[1] for e in rec.events if e.startswith("open o")]
+                allowed = set(opens[1:2]) if op == "draw" else set()
+                obs.unclosed_fail = [x for x in rec.open_unclosed() if x not in allowed]
+                if op in ("fmt", "drawstill") and R.fd_count() - base > 0:
+                    obs.unclosed_fail = obs.unclosed_fail or [f"{R.fd_count() - base} descriptor(s)"]
+            if pimg is not None and is_closed(pimg):
+                obs.source_ok = False
+                obs.note = "the caller's PIL image was closed by the failing operation"
+            held = None
         # the operation has returned (or raised); nothing has been dropped or collected by the harness yet:
         # which images did the library open, never close, and leave (or let be collected) with the file open?
         if exc == "-" and d["fault"] is None:
@@ -853,9 +1082,12 @@ class C11(Property):
         obs.fd_delta_after_drop = fd_settle(base)
         if pimg is not None:
             try:
-                pimg.seek(0)
-                pimg.load()
-                pimg.getpixel((0, 0))
+                if is_closed(pimg):
+                    raise ValueError("Operation on closed image")
+                if fname not in TRUNC:
+                    pimg.seek(0)
+                    pimg.load()
+                    pimg.getpixel((0, 0))
             except Exception as e:  # noqa: BLE001
                 obs.source_ok = False
                 obs.note = f"caller's PIL image unusable: {e}"
@@ -904,6 +1136,10 @@ class C11(Property):
         if obs.fd_delta > 0 or obs.live:
             return Failure(f"fd-leak/{where}", f"{obs.fd_delta} descriptor(s) above the baseline, live handles {obs.live} "
                            "after the operation ended and every closed/abandoned object was dropped")
+        if obs.unclosed_fail:
+            return Failure(f"unclosed-on-failure/{where}", f"{obs.unclosed_fail}: opened by the library for this call and "
+                           "still open after the call raised RenderError (checked while the exception is held, "
+                           "so that the garbage collector cannot close it)")
         if obs.unclosed:
             return Failure(f"unclosed-open/{where}", f"image(s) {obs.unclosed} opened by the library from a multi-frame file "
                            "were never closed: the file was still open when the operation returned / when the object "
@@ -922,6 +1158,8 @@ class C11(Property):
     def where(d, op):
         if op == "iter":
             return f"iter/{d['style']}/{d['spec']}/{d['src']}"
+        if op in ("ictor", "bctor"):
+            return op
         k = d["op"]
         if k in ("file", "url"):
             return f"{k}/{d.get('http', '')}/init_ok={b(d['init_ok'])}/fault={d['fault']}"
@@ -983,6 +1221,29 @@ class C11(Property):
                             f.case = c
                             out.append(f)
             ev["coverage"]["exhaustive_fault_sweep_runs"] = n
+        # usage error, oracle only (not modelled): `next()` after `image.close()` fails — whatever it raises, the
+        # iterator must have let go of the file once the call has returned and the iterator is closed
+        for style in CLS:
+            R.quiesce()
+            base = R.fd_count()
+            image, _ = make_image(style, "a.gif", "file")
+            it = ImageIterator(image, 2, "", False)
+            next(it)
+            image.close()
+            err = None
+            try:
+                next(it)
+            except StopIteration:
+                pass
+            except Exception as e:  # noqa: BLE001
+                err = e
+            it.close()
+            d = fd_settle(base)
+            if d > 0:
+                out.append(Failure(f"fd-leak/next-after-image-close/{style}",
+                                   f"{d} descriptor(s) still open after next() failed on a closed image and the iterator "
+                                   "was closed (iterator and exception still referenced)"))
+            err = it = image = None
         left = [x for x in os.listdir(common._TEMP_DIR)]
         if left:
             out.append(Failure("temp/left-at-end", f"temporary files left in the library's temp dir: {left[:5]}"))
